@@ -295,12 +295,14 @@ def fl_of(q):
     sat answers are candidates (replayed on the real code)."""
     e = E.cur()
     q = z3.simplify(q)
+    if getattr(e, 'exact_floats', False):
+        return q      # harness-requested exact real arithmetic (rounding outside the claim, stated by the harness)
     key = q.get_id()
     hit = e.uf_cache.get(key)
     if hit is not None:
         return hit
     v = _FL(q)
-    lo, hi = interval(q, e.bounds)
+    lo, hi = interval(q, e.bounds) if getattr(e, 'float_bound', 'absolute') == 'absolute' else (None, None)
     if lo is not None and hi is not None:
         M = max(abs(lo), abs(hi))
         err = z3.RealVal(str(M)) * EPS if M else z3.RealVal(0)
@@ -313,6 +315,9 @@ def fl_of(q):
         e.add(z3.If(q >= 0,
                     z3.And(v >= q * (1 - EPS), v <= q * (1 + EPS)),
                     z3.And(v <= q * (1 - EPS), v >= q * (1 + EPS))))
+    # rounding is monotone and fixes representable numbers: anchors -1, 0, 1
+    for c in (-1, 0, 1):
+        e.add(z3.Implies(q >= c, v >= c), z3.Implies(q <= c, v <= c))
     e.uf_cache[key] = v
     return v
 
@@ -687,6 +692,11 @@ class SymInt(object):
         return NotImplemented
 
     def __rpow__(self, o, mod=None):
+        if isinstance(o, float) and o > 0:
+            from .models import uf_real, _realarg, _log_math_call
+            rs = [_realarg(o, 'pow'), z3.ToReal(self.z)]
+            _log_math_call('pow', rs)
+            return SymFloat(r=uf_real('pow', *rs))
         if isinstance(o, (int, float)) and not isinstance(o, bool):
             k = concretize_int(self, -400, 400, 'exponent')
             return o ** k
@@ -848,6 +858,12 @@ class SymFloat(object):
         raise Unmodelled('float ** value')
 
     def __rpow__(self, o, mod=None):
+        if isinstance(o, (int, float)) and not isinstance(o, bool) and o > 0:
+            # positive constant ** symbolic float (math.e ** x): a transcendental value, uninterpreted
+            from .models import uf_real, _realarg, _log_math_call
+            rs = [_realarg(o, 'pow'), self.real()]
+            _log_math_call('pow', rs)
+            return SymFloat(r=uf_real('pow', *rs))
         raise Unmodelled('value ** float')
 
     def __lt__(self, o): return num_cmp('<', self, o)
